@@ -128,6 +128,12 @@ def _harvest():
         for k, pl in c.layout_plan.entity_placements.items():
             if pl.position is not None:
                 places[k] = [pl.entity_type, float(pl.position[0]), float(pl.position[1]), pl.role]
+        # arithmetic self feedback (ConnectionPlanner._add_self_feedback_connections) is a direct wire
+        for k, pl in c.layout_plan.entity_placements.items():
+            if pl.properties.get("has_self_feedback") and pl.properties.get("feedback_signal"):
+                fs = pl.properties.get("feedback_signal")
+                name = c.signal_usage.get(fs).resolved_signal_name if hasattr(c, "signal_usage") and c.signal_usage.get(fs) else fs
+                edges.append([k, k, name or fs, "red", None])
         # the gate pair of a memory cell is wired by explicit connections outside the edge list
         # (MemoryBuilder._setup_standard_write): write gate -> hold gate and the hold gate's self loop,
         # both red; every reader of the hold gate therefore also sees the write gate
